@@ -59,7 +59,7 @@ def run(pid, tier, replay=None):
             exes[hsrc] = vlib.cc_build(sc.path(hsrc.replace(".c", "")), [os.path.join(vlib.HARNESS, hsrc)] + vlib.repo_src(*libsrc), sc)
         cfg = mkcfg(sc.path(name + ".cfg"))
         out = sc.path("edges-%s.out" % name)
-        res = tlc(spec, cfg, sc, timeout=600, heap="12g", capture_prefix=marker, stdout_path=out)
+        res = tlc(spec, cfg, sc, timeout=2400, heap="12g", capture_prefix=marker, stdout_path=out)
         tlc_must_pass(res, name)
         ck.add_tlc(res, "model_" + name)
         fpath = sc.path("faults-%s.ndjson" % name)
